@@ -24,6 +24,7 @@ func init() {
 	register("kf.C09-b.sysc", kfC09bSysc)
 	register("kf.C08-c", kfC08c)
 	register("kf.C09-g", kfC09g)
+	register("kf.C11-a.sysc", kfC11aSysc)
 }
 
 var syscMu sync.Mutex
@@ -291,6 +292,25 @@ func kfC09g(g *hx.Gen, id int) hx.Case {
 	ops := []scOp{{kind: 'O', path: p, status: 200, cond: true, hdr: [][2]string{{"Cache-Control", cc}, {"ETag", "\"e1\""}}, body: []byte("body-" + p + "-v1"), rerr: -1},
 		{kind: 'R', method: "GET", path: p}, {kind: 'R', method: "GET", path: p}, {kind: 'T', dt: 3}, {kind: 'R', method: "GET", path: p}}
 	return syscRun("kf.C09-g", id, 0, ops)
+}
+
+// C11-a seen from C05/C13: the key string is the bare concatenation method+host+path+headers, so a request WITH
+// Authorization ("/p" + "Authorization" + "B") finds the entry a request WITHOUT one stored for the path
+// "/pAuthorizationB". When that entry is due for revalidation and the origin of "/p" answers the stored validator
+// 304, the Authorization request (disk writes disabled) re-publishes nothing, re-enters cachingFunc, finds the same
+// stale entry, revalidates again ... without bound
+func kfC11aSysc(g *hx.Gen, id int) hx.Case {
+	syscMu.Lock()
+	defer syscMu.Unlock()
+	cred := []string{"B", "Bearer-x"}[id%2]
+	p := "kf11a" + hx.I(id)
+	pc := p + "Authorization" + cred
+	ops := []scOp{
+		{kind: 'O', path: pc, status: 200, cond: true, rerr: -1, hdr: [][2]string{{"Cache-Control", "max-age=5"}, {"ETag", "\"e1\""}}, body: []byte("body-" + pc + "-v1")},
+		{kind: 'O', path: p, status: 200, cond: true, rerr: -1, hdr: [][2]string{{"Cache-Control", "max-age=5"}, {"ETag", "\"e1\""}}, body: []byte("body-" + p + "-v1")},
+		{kind: 'R', method: "GET", path: pc}, {kind: 'T', dt: 6},
+		{kind: 'R', method: "GET", path: p, hdr: [][2]string{{"Authorization", cred}}}}
+	return syscRun("kf.C11-a.sysc", id, 0, ops)
 }
 
 func syscRun(stream string, id int, force int, ops []scOp) hx.Case {
